@@ -10,6 +10,7 @@ import math
 
 from .. import gen
 from .. import refmodel as M
+from .. import salt as SALT
 
 ID = "C10"
 LEVEL = "exploration"
@@ -112,6 +113,8 @@ def judge(case, rep, S):
             windows = sorted(set([1, 2, 5, 6, N - 1, N, N + 1, N + 2, N + 3] + [rng.randint(1, N) for _ in range(6)]))
     N = len(seq)
     obj = S["SP"](seq)
+    if rng.random() < 0.25:
+        SALT.salt(S, obj, seq, rng, rep, cheap=N > 100)
     fns = [("get_linear_NCPR", obj.get_linear_NCPR, stat_ncpr), ("get_linear_FCR", obj.get_linear_FCR, stat_fcr),
            ("get_linear_sigma", obj.get_linear_sigma, stat_sigma), ("get_linear_hydropathy", obj.get_linear_hydropathy, stat_hydro)]
     sigma_profiles = {}
